@@ -254,7 +254,9 @@ theorem stepGc_bookkeeping (ops : Ops α B) (env : Env α) (w w' : SWorld α B) 
     ∃ gc', gc' ∈ w'.gcs ∧ gc'.id = gcId ∧
       (∀ k, (w.station? k).isSome = true → loadAt gc' k - loadAt gc k = stPow w' k - stPow w k) ∧
       (∀ k, (w'.station? k).isSome = (w.station? k).isSome) ∧
-      (∀ k val, sdGet cmds k = some val → val = loadAt gc' k ∧ (w.station? k).isSome = true) := by
+      (∀ k val, sdGet cmds k = some val → val = loadAt gc' k ∧ (w.station? k).isSome = true) ∧
+      w'.gcs = w.gcs.map (fun x => if x.id == gcId then gc' else x) ∧
+      w'.batteries.map (·.id) = w.batteries.map (·.id) := by
   obtain ⟨hgm, hgid⟩ := gc?_some w gcId gc hgc
   unfold stepGc at h
   rw [hgc] at h
@@ -323,10 +325,21 @@ theorem stepGc_bookkeeping (ops : Ops α B) (env : Env α) (w w' : SWorld α B) 
                         rw [hnost] at c2'; cases c2'
                       exact ⟨by rw [o1 k hkb]; exact c1, c2⟩)
                   h2 hg3
-                refine ⟨g3.gc, ?_, h3.2, ?_, ?_, ?_⟩
+                have hgcs : g3.w.gcs = w.gcs := by
+                    have a1 := foldlM_inv _ (fun (g : GSt α B) => g.w.gcs = w.gcs)
+                      (fun g vid g' hg hstep => by rw [vehicleBody_gcs ops env g g' vid hstep]; exact hg)
+                      vids _ g1 rfl hg1
+                    have a2 := foldlM_inv _ (fun (g : GSt α B) => g.w.gcs = w.gcs)
+                      (fun g vid g' hg hstep => by rw [surplusBody_gcs ops env g g' vid hstep]; exact hg)
+                      vids _ g2 a1 hg2
+                    exact foldlM_inv _ (fun (g : GSt α B) => g.w.gcs = w.gcs)
+                      (fun g bid g' hg hstep => by
+                        rw [(batteryBody_frame ops env nCheap g g' bid hstep).1]; exact hg)
+                      _ _ g3 a2 hg3
+                refine ⟨g3.gc, ?_, h3.2, ?_, ?_, h3.1.cmd, ?_, h3.1.bats⟩
                 · unfold SWorld.setGc
                   simp only [List.mem_map]
-                  have hgcs : g3.w.gcs = w.gcs := by
+                  have hgcs' : g3.w.gcs = w.gcs := by
                     have a1 := foldlM_inv _ (fun (g : GSt α B) => g.w.gcs = w.gcs)
                       (fun g vid g' hg hstep => by rw [vehicleBody_gcs ops env g g' vid hstep]; exact hg)
                       vids _ g1 rfl hg1
@@ -346,6 +359,9 @@ theorem stepGc_bookkeeping (ops : Ops α B) (env : Env α) (w w' : SWorld α B) 
                 · intro k
                   have : (g3.w.setGc g3.gc).station? k = g3.w.station? k := rfl
                   rw [this]; exact h3.1.same k
-                · exact h3.1.cmd
+                · show (g3.w.setGc g3.gc).gcs = _
+                  unfold SWorld.setGc
+                  simp only
+                  rw [hgcs, h3.2]
 
 end SpiceEv.BalancedMarket
